@@ -30,6 +30,10 @@ func init() {
 			}
 			n, _ := strconv.Atoi(a[2].atom)
 			return c18BigMatch(byte(v), n)
+		case "complement":
+			return c18BigComplement(v)
+		case "reuse":
+			return c18SearchReuse(v)
 		}
 		return "ERR"
 	}
@@ -120,7 +124,105 @@ func c18BigMatch(letter byte, n int) string {
 	})
 }
 
+// c18BigComplement: Complement and Transcribe on 1 MiB + k residues (a table-driven or chunked /
+// parallel rewrite must treat every residue, also the last len % workers ones: seeded change W1-2)
+func c18BigComplement(k int) string {
+	n := 1<<20 + k
+	seq := make([]byte, n)
+	x := uint32(99 + k)
+	for i := range seq {
+		x = x*1664525 + 1013904223
+		seq[i] = c18Letters[int(x>>16)%len(c18Letters)]
+		if (x>>9)&7 == 0 {
+			seq[i] = byte(x >> 20) // any byte, also outside the alphabet
+		}
+	}
+	return guarded(func() string {
+		for pass, f := range []func(gts.Sequence) gts.Sequence{gts.Complement, gts.Transcribe} {
+			got := f(gts.New(nil, nil, seq)).Bytes()
+			if len(got) != n {
+				return fmt.Sprintf("pass %d: length %d, want %d", pass, len(got), n)
+			}
+			for i, c := range seq {
+				want := c
+				if c18IsLetter(c) {
+					want = c18LetterOf(c18ComplSet(c18BaseSet(c)), c18IsUpper(c), pass == 1)
+				}
+				if got[i] != want {
+					return fmt.Sprintf("pass %d (0 complement, 1 transcribe): residue %d of %d: %q became %q, want %q", pass, i, n, c, got[i], want)
+				}
+			}
+		}
+		return "ok"
+	})
+}
+
+// c18SearchReuse: two searches through ONE buffer that is refilled in between (same address, same
+// length, other residues): each search answers for the residues it is given (seeded change W2-2:
+// a suffix array memoised by address and length)
+func c18SearchReuse(v int) string {
+	n := 64 + v*37
+	buf := make([]byte, n)
+	fill := func(seed uint32, at []int) {
+		x := seed
+		for i := range buf {
+			x = x*1664525 + 1013904223
+			buf[i] = "cg"[(x>>16)&1]
+		}
+		for _, p := range at {
+			copy(buf[p:], "atta")
+		}
+	}
+	naive := func() string {
+		var w []string
+		low := lowerASCII(buf)
+		for i := 0; i+4 <= len(low); i++ {
+			if string(low[i:i+4]) == "atta" {
+				w = append(w, strconv.Itoa(i))
+			}
+		}
+		return strings.Join(w, ",")
+	}
+	return guarded(func() string {
+		seqv := gts.New(nil, nil, buf)
+		for round, at := range [][]int{{3, 20}, {7, 40, n - 4}, {}, {11}} {
+			fill(uint32(7+round), at)
+			var g []string
+			for _, s := range gts.Search(seqv, gts.New(nil, nil, []byte("atta"))) {
+				g = append(g, strconv.Itoa(s[0]))
+			}
+			if got, want := strings.Join(g, ","), naive(); got != want {
+				return fmt.Sprintf("round %d on the refilled buffer: got %s want %s", round, got, want)
+			}
+		}
+		return "ok"
+	})
+}
+
 func c18Big(r *Run) {
+	for _, k := range []int{0, 1, 5, 13} {
+		if r.tier != "thorough" && k != 5 && k != 13 {
+			continue
+		}
+		line := fmt.Sprintf("nuc.big complement %d", k)
+		crumb(line)
+		out := c18BigComplement(k)
+		r.count("big/complement")
+		r.eval(line, true)
+		if out != "ok" {
+			r.fail(Failure{Oracle: "complement / transcribe map every residue of a sequence of 1 MiB + k residues as the alphabet says", Op: line, Got: out})
+		}
+	}
+	for v := 0; v < 4; v++ {
+		line := fmt.Sprintf("nuc.big reuse %d", v)
+		crumb(line)
+		out := c18SearchReuse(v)
+		r.count("big/search-buffer-reuse")
+		r.eval(line, true)
+		if out != "ok" {
+			r.fail(Failure{Oracle: "search answers for the residues it is given, also when the same buffer (address, length) was searched before with other residues", Op: line, Got: out})
+		}
+	}
 	variants := []int{0, 1}
 	if r.tier == "thorough" {
 		variants = []int{0, 1, 2, 3, 4}
